@@ -466,7 +466,7 @@ func (r *runner) rsEnumerate(full bool, rnd *vh.Rand, seeded int) int {
 				ops = append(ops, rsOp{K: "copy", X: x, Y: y, Form: vh.Pick(rnd, rsCopyForms)})
 			case p < 82:
 				rr := rnd.Intn(nr)
-				if bound[rr] || rnd.Intn(3) > 0 { // most programs stay disciplined
+				if bound[rr] || rnd.Intn(2) > 0 { // most programs stay disciplined
 					ops = append(ops, rsOp{K: "store", X: rnd.Intn(nv), I: rnd.Intn(3), V: v})
 				} else {
 					bound[rr] = true
